@@ -139,9 +139,9 @@ pub fn parse_statement(
             Some((tag_text, divert)) => (tag_text.trim_end(), Some(divert)),
             None => (rest, None),
         };
-        let mut nodes = vec![Node::Tag(
-            parse_dynamic_string(tag_text.trim_start()).map_err(|e| e.with_line(ln))?,
-        )];
+        // (`# one # two` is two tags, as it is after text on a content line.)
+        let mut nodes =
+            tokenize_inline_content(&format!("#{tag_text}")).map_err(|e| e.with_line(ln))?;
         if let Some(divert) = divert {
             nodes.push(Node::Divert(
                 parse_divert(divert).map_err(|e| e.with_line(ln))?,
